@@ -675,7 +675,6 @@ def r5_r6(prog, rep, topos):
             if not (assigned & {"jyseps1_1", "jyseps2_1", "jyseps1_2", "jyseps2_2", "ny_inner", "ixseps1", "ixseps2"}):
                 tnames.update(assigned)
                 local_defs.append(st)
-    local_defs.sort(key=lambda st: st.lineno)
     for n in ast.walk(w.node):
         if isinstance(n, ast.Subscript):
             sl = n.slice
@@ -684,6 +683,20 @@ def r5_r6(prog, rep, topos):
                 names = {x.id for x in ast.walk(e) if isinstance(x, ast.Name)}
                 if names & tnames:
                     targets.append((n, e))
+    # plain local definitions that the collected subscripts need (e.g. a guard count set unconditionally)
+    needed = {x.id for _n, e in targets for x in ast.walk(e) if isinstance(x, ast.Name)} - tnames - {"numpy", "myg"}
+    changed = True
+    while changed:
+        changed = False
+        for st in body:
+            if isinstance(st, ast.Assign) and isinstance(st.targets[0], ast.Name) and st.targets[0].id in needed and st not in local_defs \
+                    and isinstance(st.value, (ast.Name, ast.Constant, ast.BinOp, ast.IfExp, ast.Attribute)):
+                local_defs.append(st)
+                more = {x.id for x in ast.walk(st.value) if isinstance(x, ast.Name)} - tnames - needed - {"myg", "numpy"}
+                if more:
+                    needed |= more
+                changed = True
+    local_defs.sort(key=lambda st: st.lineno)
     rep.floor("R5.subscripts", len(targets), 6)
     seen = set()
     for t in topos:
